@@ -322,6 +322,139 @@ func (c *Ctx) dedicatedE2E() {
 		srv.Close()
 	}
 	c.multiLeakObservations()
+	c.retryReleaseEpisodes()
+}
+
+// retryReleaseEpisodes: a dedicated Do / DoMulti / Receive sits in its retry loop (the server answers
+// LOADING, resp. the RESP2 Pub/Sub helper connection cannot be dialled, while the wire stays healthy);
+// during a retry delay the client is released or closed, optionally the next Dedicate() takes the same
+// wire and opens MULTI; then the delay ends. Nothing issued through the released handle may reach the
+// server any more and the call must return ErrDedicatedClientRecycled.
+func (c *Ctx) retryReleaseEpisodes() {
+	bg := context.Background()
+	for _, meth := range []string{"do", "multi", "receive"} {
+		for _, how := range []string{"r", "c"} {
+			for k := 0; k < 2; k++ {
+				for _, other := range []bool{false, true} {
+					c.retryReleaseEpisode(bg, meth, how, k, other)
+				}
+			}
+		}
+	}
+}
+
+func (c *Ctx) retryReleaseEpisode(bg context.Context, meth, how string, k int, other bool) {
+	fails := k + 2 // retryable answers: one more than needed, so that a pass after the release would loop again
+	var mu sync.Mutex
+	dials, helperDials := 0, 0
+	srv := fakeredis.New(fakeredis.Options{RejectHello: meth == "receive", OnDial: func(string) error {
+		mu.Lock()
+		defer mu.Unlock()
+		if dials++; meth == "receive" && dials >= 3 { // 1: pipeline, 2: dedicated wire, 3..: the RESP2 Pub/Sub helper
+			if helperDials++; helperDials <= fails {
+				return errors.New("verif: helper connection refused")
+			}
+		}
+		return nil
+	}})
+	defer srv.Close()
+	srv.AddRule(fakeredis.Rule{Match: fakeredis.Cmd("GET", "rk1"), Err: "LOADING Redis is loading the dataset in memory", Times: fails})
+	entered, proceed := make(chan int, 8), make(chan struct{})
+	cl, err := rueidis.NewClient(rueidis.ClientOption{InitAddress: []string{"fake:1"}, DialCtxFn: srv.Dial, ForceSingleClient: true,
+		PipelineMultiplex: -1, DisableCache: true, BlockingPoolSize: 1,
+		RetryDelay: func(attempts int, _ rueidis.Completed, _ error) time.Duration {
+			entered <- attempts
+			<-proceed
+			return 0
+		}})
+	if err != nil {
+		panic(err)
+	}
+	defer cl.Close()
+	dc, release := cl.Dedicate()
+	dc.Do(bg, dc.B().Ping().Build()) // the dedicated wire exists (dial 2) before the call under test
+	var ret error
+	done := make(chan struct{})
+	go func() {
+		defer close(done)
+		switch meth {
+		case "do":
+			ret = dc.Do(bg, dc.B().Get().Key("rk1").Build()).Error()
+		case "multi":
+			ret = dc.DoMulti(bg, dc.B().Get().Key("rk1").Build(), dc.B().Get().Key("rk2").Build())[0].Error()
+		case "receive":
+			ret = dc.Receive(bg, dc.B().Subscribe().Channel("rch").Build(), func(rueidis.PubSubMessage) {})
+		}
+	}()
+	passes := func() int {
+		if meth == "receive" {
+			mu.Lock()
+			defer mu.Unlock()
+			return helperDials
+		}
+		n := 0
+		for _, e := range srv.Log() {
+			if len(e.Argv) == 2 && e.Argv[0] == "GET" && e.Argv[1] == "rk1" {
+				n++
+			}
+		}
+		return n
+	}
+	var rel2 func()
+	var dc2 rueidis.DedicatedClient
+	atRelease, byRelease, result := -1, 0, "" // byRelease: helper dials made by the hand-back itself (mux.Store reads and resets the hooks through the helper pipe)
+	for i := 0; result == ""; i++ {
+		select {
+		case <-entered:
+			if i == k {
+				before := passes()
+				if how == "r" {
+					release()
+				} else {
+					dc.Close()
+				}
+				if other {
+					dc2, rel2 = cl.Dedicate()
+					dc2.Do(bg, dc2.B().Multi().Build()) // whatever the old handle still sends lands in here
+				}
+				atRelease = passes()
+				byRelease = atRelease - before
+			}
+			proceed <- struct{}{}
+		case <-done:
+			result = "ok"
+			if errors.Is(ret, rueidis.ErrDedicatedClientRecycled) {
+				result = "recycled"
+			}
+		case <-time.After(2 * time.Second):
+			result = "stuck"
+		}
+	}
+	total := passes() - byRelease
+	atRelease -= byRelease
+	delays := make([]string, fails)
+	for i := range delays {
+		delays[i] = "n"
+	}
+	delays[k] = how
+	op := fmt.Sprintf("%s %s", meth, strings.Join(delays, " "))
+	ans := fmt.Sprintf("%s passes=%d", result, total)
+	c.Emit("retry "+op, ans, true)
+	c.Emit("!retry "+op, ans, false)
+	if total > atRelease || result != "recycled" {
+		c.Fail("dedicated:used-after-release:retry-loop", "retry "+op, fmt.Sprintf("%s through a dedicated client released during retry delay %d: %d pass(es) reached the server after the release returned, the call returned %q (want 0 and the recycled error)", meth, k, total-atRelease, result))
+	}
+	c.Hit("retry-release:" + meth)
+	if dc2 != nil {
+		dc2.Do(bg, dc2.B().Discard().Build())
+		rel2()
+	}
+	release()
+	if result == "stuck" { // unblock the caller (a Receive that subscribed on a wire it does not own)
+		cl.Close()
+		close(proceed)
+		<-done
+	}
 }
 
 // Observations outside the property text (reported, not failed): a dedicated session that returns
@@ -392,5 +525,18 @@ func init() {
 	suites["dedicatede2e"] = suite{
 		rule: "every dedicated session is judged on the command log of its connection while shared-pipeline and blocking-pool traffic runs",
 		run:  func(c *Ctx) { c.dedicatedE2E() },
+		replay: func(c *Ctx, lines []string) { // retry-loop episodes are replayable from their op line
+			for _, l := range lines {
+				w := strings.Fields(l)
+				if len(w) < 3 || w[0] != "retry" {
+					continue
+				}
+				for k, d := range w[2:] {
+					if d != "n" {
+						c.retryReleaseEpisode(context.Background(), w[1], d, k, true)
+					}
+				}
+			}
+		},
 	}
 }
